@@ -338,8 +338,9 @@ func (p *Parser) parseComparisonExpression() (ast.Expression, error) {
 			}, nil
 		}
 
-		// Parse the right side of the expression
-		right, err := p.parsePrimaryExpression()
+		// Parse the right side of the expression. It binds tighter than the
+		// comparison: a = b + 1 is a = (b + 1), a < b || c is a < (b || c).
+		right, err := p.parseStringConcatExpression()
 		if err != nil {
 			return nil, err
 		}
